@@ -19,7 +19,7 @@ func init() {
 			"(O1) listener.Shutdown: on the non-upgrade branch the listener is closed before the drain callback, on the upgrade branch accepting is stopped before it and the listening socket is NOT closed (the new process owns it); " +
 			"(O2) activeListener.OnShutdown notifies every connection (OnShutdown event) and then waits in waitConnectionsClose(drainTime) on every path; the wait loop re-reads the active-stream gauge and is bounded by the elapsed time; " +
 			"(O3) StageManager.Stop runs the graceful-stop stage (app.Shutdown, then the registered hooks) before app.Close whenever the action is GracefulStop or Upgrade, and Close before the after-stop stage; " +
-			"(O4) connection.startReadLoop hands a connection over (transfer) only after the stop signal and the transfer deadline, asks the transfer callback once, and transfer() passes the connection (with its read buffer) to transferRead before transferWrite. (O5) connection.readBuffer is never reset to nil (or transferReadSendData tolerates nil) and transferRead sends that buffer. (O6) MServerConn.goAway writes maxClientStreamID as last-stream-id on every path, is idempotent, and processHeaders creates no stream while inGoAway. (O7) path-sensitively over inGoAway and StreamID > maxClientStreamID: no feasible path in HandleFrame reaches a process* handler with both possibly true. (O8) no invoke of Close on an api.Connection is statically reachable from any server-side GoAway() in pkg/stream/{http,http2,xprotocol}. (O9) every access to connection.needTransfer, plain or atomic, lies on the success edge of tryMutex.TryLock with no non-deferred Unlock in between. (O10) every value stored into connection.readBuffer is buffer.GetIoBuffer's result, nil or a parameter; every []byte taken from the accept context in newServerConnection is written into the read buffer.",
+			"(O4) connection.startReadLoop hands a connection over (transfer) only after the stop signal and the transfer deadline, asks the transfer callback once, and transfer() passes the connection (with its read buffer) to transferRead before transferWrite. (O5) connection.readBuffer is never reset to nil (or transferReadSendData tolerates nil) and transferRead sends that buffer. (O6) MServerConn.goAway writes maxClientStreamID as last-stream-id on every path, is idempotent, and processHeaders creates no stream while inGoAway. (O7) path-sensitively over inGoAway and StreamID > maxClientStreamID: no feasible path in HandleFrame reaches a process* handler with both possibly true. (O8) no invoke of Close on an api.Connection is statically reachable from any server-side GoAway() in pkg/stream/{http,http2,xprotocol}. (O9) every access to connection.needTransfer, plain or atomic, lies on the success edge of tryMutex.TryLock with no non-deferred Unlock in between. (O10) every value stored into connection.readBuffer is buffer.GetIoBuffer's result, nil or a parameter; every []byte taken from the accept context in newServerConnection is written into the read buffer. (O1 stop-drain-unconditional) on the non-upgrade branch of listener.Shutdown the OnShutdown call is guarded by bindToPort only.",
 		Run: runC11,
 	})
 }
